@@ -272,6 +272,17 @@ fn multi_frame(rec: &Recorder, r: &mut Rng, max_each: usize) {
     }
 }
 
+/// a decoder that has completely decoded a checksummed frame before (state of that frame is still in it)
+fn used_decoder() -> FrameDecoder {
+    static GOOD: std::sync::OnceLock<Vec<u8>> = std::sync::OnceLock::new();
+    let g = GOOD.get_or_init(|| crate::refz::compress(b"a frame with a checksum that was decoded before, a frame with a checksum", 3, &[crate::refz::CP::ChecksumFlag(true)], None).unwrap());
+    let mut d = FrameDecoder::new();
+    d.set_max_window_size(u64::MAX);
+    let mut out = [0u8; 200];
+    let _ = d.decode_all(g, &mut out);
+    d
+}
+
 /// (e) strict prefixes of a valid frame
 fn prefixes(rec: &Recorder, r: &mut Rng, c: &FrameCase, info: &zspec::walker::FrameInfo) {
     let n = c.bytes.len();
@@ -372,12 +383,51 @@ fn prefixes(rec: &Recorder, r: &mut Rng, c: &FrameCase, info: &zspec::walker::Fr
                 };
                 out.push(("decode_blocks", res, false));
             }
-            // decode_from_to: cannot know that nothing more will come: never finished, never wrong bytes
-            if k >= info.header.header_len {
-                let mut d = FrameDecoder::new();
-                d.set_max_window_size(u64::MAX);
+            // decode_blocks on a decoder that completed a checksummed frame before
+            {
+                let mut d = used_decoder();
+                let mut src = prefix;
                 let mut delivered = Vec::new();
-                let mut pos = 0;
+                let res = match d.reset(&mut src) {
+                    Err(e) => Err((e.to_string(), Vec::new())),
+                    Ok(()) => loop {
+                        match d.decode_blocks(&mut src, BlockDecodingStrategy::All) {
+                            Err(e) => {
+                                if let Some(v) = d.collect() {
+                                    delivered.extend_from_slice(&v);
+                                }
+                                break Err((e.to_string(), delivered.clone()));
+                            }
+                            Ok(_) => {
+                                if let Some(v) = d.collect() {
+                                    delivered.extend_from_slice(&v);
+                                }
+                                if d.is_finished() {
+                                    break Ok(delivered.clone());
+                                }
+                            }
+                        }
+                    },
+                };
+                let finished_after_error = res.is_err() && k >= info.header.header_len && d.is_finished();
+                out.push(("decode_blocks on a reused decoder", res, finished_after_error));
+            }
+            // decode_from_to: cannot know that nothing more will come: never finished, never wrong bytes
+            for reused in [false, true] {
+                if k < info.header.header_len {
+                    continue;
+                }
+                let mut d = if reused { used_decoder() } else { FrameDecoder::new() };
+                d.set_max_window_size(u64::MAX);
+                if reused {
+                    // decode_from_to only starts a new frame on a fresh decoder: reset on the header first
+                    let mut hdr = &prefix[..info.header.header_len];
+                    if d.reset(&mut hdr).is_err() {
+                        continue;
+                    }
+                }
+                let mut delivered = Vec::new();
+                let mut pos = if reused { info.header.header_len } else { 0 };
                 let mut target = vec![0u8; 5000];
                 let mut idle = 0;
                 let res = loop {
@@ -398,7 +448,7 @@ fn prefixes(rec: &Recorder, r: &mut Rng, c: &FrameCase, info: &zspec::walker::Fr
                         }
                     }
                 };
-                out.push(("decode_from_to", res, d.is_finished()));
+                out.push((if reused { "decode_from_to on a reused decoder" } else { "decode_from_to" }, res, d.is_finished()));
             }
             out
         });
@@ -415,7 +465,11 @@ fn prefixes(rec: &Recorder, r: &mut Rng, c: &FrameCase, info: &zspec::walker::Fr
                         rec.violation(Sig::new("prefix_wrong_bytes", front, class), json!({"cut": k, "frame_len": n, "delivered": delivered.len(), "origin": c.origin}), replay.clone());
                         continue;
                     }
-                    if front == "decode_from_to" {
+                    if front == "decode_blocks on a reused decoder" && finished {
+                        rec.violation(Sig::new("prefix_finished", front, class), json!({"cut": k, "frame_len": n, "origin": c.origin, "what": "is_finished() is true after a strict prefix failed to decode"}), replay.clone());
+                        continue;
+                    }
+                    if front.starts_with("decode_from_to") {
                         if finished {
                             rec.violation(Sig::new("prefix_finished", front, class), json!({"cut": k, "frame_len": n, "origin": c.origin}), replay.clone());
                         }
